@@ -1424,19 +1424,28 @@ V('c11-rename-source-unchecked', 'C11', 'R11.1c', LAYOUT,
             raise FileExistsError(dest_path)''',
   '''        if os.path.exists(dest_path):
             raise FileExistsError(dest_path)''')
-V('c11-star-no-dotall', 'C11', 'R11.2', LISTTREE,
-  '''        return (re.compile(pattern, re.DOTALL),
-                re.compile(pattern, re.DOTALL | re.IGNORECASE))''',
-  '''        return (re.compile(pattern),
-                re.compile(pattern, re.IGNORECASE))''')
-V('c11-dollar-anchor', 'C11', 'R11.2', LISTTREE,
-  "pattern = '^' + ''.join(pattern_parts) + r'\\Z'",
-  "pattern = '^' + ''.join(pattern_parts) + '$'")
-V('c11-percent-matches-delimiter', 'C11', 'R11.2', LISTTREE,
-  '''            elif part == '%':
-                pattern_parts.append(self._no_delimiter)''',
-  '''            elif part == '%':
-                pattern_parts.append('.*?')''')
+V('c11-star-misses-end', 'C11', 'R11.2', LISTTREE,
+  'ends = set(range(min(ends), len(name) + 1))',
+  'ends = set(range(min(ends), len(name)))')
+V('c11-star-from-latest', 'C11', 'R11.2', LISTTREE,
+  'ends = set(range(min(ends), len(name) + 1))',
+  'ends = set(range(max(ends), len(name) + 1))')
+V('c11-end-not-anchored', 'C11', 'R11.2', LISTTREE,
+  '        return len(name) in ends\n',
+  '        return bool(ends)\n')
+V('c11-percent-crosses-delimiter', 'C11', 'R11.2', LISTTREE,
+  '                    new_ends.update(range(start, stop + 1))',
+  '                    new_ends.update(range(start, stop + 2))')
+V('c11-percent-needs-one-char', 'C11', 'R11.2', LISTTREE,
+  '                    new_ends.update(range(start, stop + 1))',
+  '                    new_ends.update(range(start + 1, stop + 1))')
+V('c11-percent-no-fallback', 'C11', 'R11.2', LISTTREE,
+  '''                    if stop < 0:
+                        stop = len(name)
+''', '''''')
+V('c11-literal-ignores-offset', 'C11', 'R11.2', LISTTREE,
+  'if name.startswith(part, end)}', 'if part in name[end:]}',
+  expect='undecided')
 V('c11-rename-guard-wrong-field', 'C11', 'R11.3', STATE,
   "if cmd.to_mailbox == 'INBOX':", "if cmd.from_mailbox == 'INBOX':")
 V('c11-delete-no-inbox-guard', 'C11', 'R11.3', STATE,
@@ -1449,19 +1458,12 @@ V('c11-inbox-not-recreated', 'C11', 'R11.4', DICTMBX,
                         self._content_cache, self._thread_cache)''',
   '''                    self._set[after_name] = self._inbox''')
 # twins
-V('c11-twin-fullmatch', 'C11', 'R11.2', LISTTREE,
-  "pattern = '^' + ''.join(pattern_parts) + r'\\Z'",
-  "pattern = ''.join(pattern_parts)", expect='silent',
-  edits=[(LISTTREE, "pattern = '^' + ''.join(pattern_parts) + r'\\Z'",
-          "pattern = ''.join(pattern_parts)"),
-         (LISTTREE, "if canonical_i.match('INBOX'):",
-          "if canonical_i.fullmatch('INBOX'):"),
-         (LISTTREE, "elif canonical.match(entry.name):",
-          "elif canonical.fullmatch(entry.name):")])
-V('c11-twin-class-star', 'C11', 'R11.2', LISTTREE,
-  '''            if part == '*':
-                pattern_parts.append('.*?')''', '''            if part == '*':
-                pattern_parts.append(r'[\\s\\S]*?')''', expect='silent')
+V('c11-twin-one-plus-len', 'C11', 'R11.2', LISTTREE,
+  'ends = set(range(min(ends), len(name) + 1))',
+  'ends = set(range(min(ends), 1 + len(name)))', expect='silent')
+V('c11-twin-find-eq-minus-one', 'C11', 'R11.2', LISTTREE,
+  '                    if stop < 0:', '                    if stop == -1:',
+  expect='silent')
 
 # ---------------------------------------------------------------- C18
 PRIM = 'pymap/parsing/primitives.py'
@@ -2261,3 +2263,17 @@ V('c07-header-echo-verbatim', 'C07', 'R7.9', FETCHATTR,
   '''                    parts.append(bytes(List(
                         [AString(hdr) for hdr in sorted(headers)])))''',
   '''                    parts.append(bytes(List(headers, sort=True)))''')
+SEARCHPY = 'pymap/search.py'
+V('c06-search-unescaped-pattern', 'C06', 'R6.11', SEARCHPY,
+  'escaped_substr = re.escape(substr)', 'escaped_substr = substr')
+V('c06-contains-unescaped-pattern', 'C06', 'R6.11', 'pymap/message.py',
+  'pattern = re.compile(re.escape(value), re.I)',
+  'pattern = re.compile(value, re.I)')
+V('c06-search-twin-inline-escape', 'C06', 'R6.11', SEARCHPY,
+  '''        escaped_substr = re.escape(substr)
+        return re.search(escaped_substr, data, re_flags) is not None''',
+  '''        return re.search(re.escape(substr), data, re_flags) is not None''',
+  expect='silent')
+V('c06-string-build-strict-utf8', 'C06', 'R6.7', PRIM,
+  "ascii_ = bytes(value, 'utf-8', 'replace')",
+  "ascii_ = value.encode('utf-8')")
